@@ -444,6 +444,7 @@ class Interp:
         s.fnapps = []                   # (fname, result var Poly, [args]) for sqrt/acos/atan2/cos/sin...
         s.trail, s.pos, s.new_alts = list(trail), 0, []
         s.freed = set()
+        s.heap = []                     # (allocator, object id, size) in allocation order
         s.calls = {}
         s.stubs = getattr(s, "stubs", {})      # callee name -> python function(I, args): compositional contracts
 
@@ -668,6 +669,7 @@ class Interp:
             q = Fraction(math.isqrt(r.numerator), 1) / Fraction(math.isqrt(r.denominator), 1) if r.denominator else 0
             if q * q == r:
                 return P(q)
+            return P(Fraction(math.sqrt(float(c))))      # numeric evaluation of a CONSTANT (cut, stated)
         v = s.fresh("sqrt")
         s.side.append(s.emit(v) >= 0)
         s.fnapps.append(("sqrt", v, [x]))
@@ -1037,9 +1039,13 @@ class Interp:
             x, y = s.emit(a[0]), s.emit(a[1])
             return z3.If(x <= y, x, y) if "min" in fn else z3.If(x >= y, x, y)
         if fn in ("malloc", "_Znwm", "_Znam"):
-            return s.alloc(a[0], "fresh")
+            p = s.alloc(a[0], "fresh")
+            s.heap.append((fn, p.obj, a[0]))
+            return p
         if fn == "calloc":
-            return s.alloc(a[0] * a[1], "zero")
+            p = s.alloc(a[0] * a[1], "zero")
+            s.heap.append((fn, p.obj, a[0] * a[1]))
+            return p
         if fn in ("free", "_ZdlPv", "_ZdaPv"):
             if a[0].obj is not None:
                 s.freed.add(a[0].obj)
